@@ -103,7 +103,13 @@ def run(ctx: Any, prog: Program) -> None:
     # search variable starts at search_pos and only increases
     inits = [n for n in walk_no_nested(gi) if isinstance(n, ast.Assign) and isinstance(n.targets[0], ast.Name) and n.targets[0].id != desired]
     search_vars = {n.targets[0].id for n in inits if dotted(n.value) == 'self.search_pos'}
-    ctx.check('C08.D1', len(search_vars) == 1, vm, gi, 'the search must start from self.search_pos', text='search starts at search_pos')
+    # `for x in itertools.count(self.search_pos)` is the same search: starts there, steps by one
+    for lp in walk_no_nested(gi):
+        if isinstance(lp, ast.For) and isinstance(lp.target, ast.Name) and isinstance(lp.iter, ast.Call) and (dotted(lp.iter.func) or '').split('.')[-1] == 'count' and lp.iter.args \
+                and dotted(lp.iter.args[0]) == 'self.search_pos' and (len(lp.iter.args) == 1 or (isinstance(lp.iter.args[1], ast.Constant) and lp.iter.args[1].value == 1)) and not lp.iter.keywords:
+            search_vars.add(lp.target.id)
+    # (where the search starts is a matter of speed, not of uniqueness: every candidate is tested; an unrecognised search is declined)
+    ctx.shape('C08.D1', len(search_vars) == 1, vm, gi, 'the search variable starts from self.search_pos (assignment or itertools.count)', text='search starts at search_pos')
     for n in walk_no_nested(gi):
         if isinstance(n, ast.AugAssign) and isinstance(n.target, ast.Name) and n.target.id in search_vars:
             ok = isinstance(n.op, ast.Add) and isinstance(n.value, ast.Constant) and n.value.value == 1
@@ -310,28 +316,87 @@ def run(ctx: Any, prog: Program) -> None:
               'a colliding fixup is re-indexed through self[...] = ... inside the first pass: the lowest index unused *so far* may be the legitimate index of a later entry, '
               'which then keeps it too (two variables share one replaceNN)', text='init defers re-indexing of duplicates')
     fs = vm.func('EntityFixup.__setitem__')
-    sets = [n for n in ast.walk(fs) if isinstance(n, ast.SetComp)]
-    whiles = [n for n in ast.walk(fs) if isinstance(n, ast.While)]
+    ctor = [c for c in ast.walk(fs) if isinstance(c, ast.Call) and dotted(c.func) == 'FixupValue' and len(c.args) == 3]
+    scope, res_var = fs, None
+    if len(ctor) == 1 and isinstance(ctor[0].args[2], ast.Name):
+        res_var = ctor[0].args[2].id
+        # the index may be computed by a private helper method: `ind = self._helper()` - follow it, its returned name is the search variable
+        hdefs = [n for n in ast.walk(fs) if isinstance(n, ast.Assign) and dotted(n.targets[0]) == res_var and isinstance(n.value, ast.Call) and (dotted(n.value.func) or '').startswith('self.')
+                 and not n.value.args and not n.value.keywords]
+        if hdefs and vm.has_func('EntityFixup.' + dotted(hdefs[0].value.func).split('.')[1]):
+            scope = vm.func('EntityFixup.' + dotted(hdefs[0].value.func).split('.')[1])
+            rets_ = [r for r in walk_no_nested(scope) if isinstance(r, ast.Return)]
+            res_var = rets_[0].value.id if len(rets_) == 1 and isinstance(rets_[0].value, ast.Name) else None
+    sets = [n for n in ast.walk(scope) if isinstance(n, ast.SetComp)]
+    whiles = [n for n in ast.walk(scope) if isinstance(n, ast.While)]
+    recognised = False
     ok = False
-    if len(sets) == 1 and len(whiles) == 1:
+    if len(sets) == 1 and len(whiles) == 1 and res_var is not None:
         sc, wl = sets[0], whiles[0]
         idxvar = None
-        for n in ast.walk(fs):
+        for n in ast.walk(scope):
             if isinstance(n, ast.Assign) and n.value is sc and isinstance(n.targets[0], ast.Name):
                 idxvar = n.targets[0].id
-        elt_ok = isinstance(sc.elt, ast.Attribute) and sc.elt.attr == 'id' and ast.unparse(sc.generators[0].iter) == 'self._fixup.values()'
+        elt_ok = isinstance(sc.elt, ast.Attribute) and sc.elt.attr == 'id' and ast.unparse(sc.generators[0].iter) == 'self._fixup.values()' and not sc.generators[0].ifs
         t = wl.test
         loop_ok = isinstance(t, ast.Compare) and isinstance(t.ops[0], ast.In) and dotted(t.comparators[0]) == idxvar and isinstance(t.left, ast.Name) \
-            and len(wl.body) == 1 and isinstance(wl.body[0], ast.AugAssign) and isinstance(wl.body[0].op, ast.Add) and dotted(wl.body[0].target) == t.left.id
+            and len(wl.body) == 1 and isinstance(wl.body[0], ast.AugAssign) and isinstance(wl.body[0].op, ast.Add) and dotted(wl.body[0].target) == t.left.id \
+            and isinstance(wl.body[0].value, ast.Constant) and wl.body[0].value.value == 1
+        recognised = loop_ok and idxvar is not None
         start_ok = False
         if loop_ok:
-            for n in ast.walk(fs):
+            for n in ast.walk(scope):
                 if isinstance(n, ast.Assign) and dotted(n.targets[0]) == t.left.id and isinstance(n.value, ast.Constant) and n.value.value == 1 and n.lineno < wl.lineno:
                     start_ok = True
-            ctor = [c for c in ast.walk(fs) if isinstance(c, ast.Call) and dotted(c.func) == 'FixupValue']
-            used_ok = len(ctor) == 1 and len(ctor[0].args) == 3 and dotted(ctor[0].args[2]) == t.left.id
+            used_ok = res_var == t.left.id
             ok = elt_ok and start_ok and used_ok
-    ctx.check('C08.D5', ok, vm, fs, 'EntityFixup.__setitem__ must pick the lowest index >= 1 that is not among the current indexes and store it in the new FixupValue', text='setitem lowest unused index')
+    counter = None
+    if not recognised and res_var is not None:
+        # unknown spelling: interpret the index computation on every set of indexes drawn from a small family (engine/minieval.py).  Only a
+        # concrete counterexample gives a verdict; agreement on the family does not, the rule then declines.
+        from engine.minieval import MiniEval, Obj, Unsupported, Raised
+        import itertools as _it
+        blk_ = None
+        if scope is fs and ctor:
+            st_ = ctor[0]
+            while st_ is not None and not isinstance(st_, ast.stmt):
+                st_ = vm.parents.get(st_)
+            par_ = vm.parents.get(st_) if st_ is not None else None
+            for fld_ in ('body', 'orelse', 'finalbody'):
+                seq_ = getattr(par_, fld_, None)
+                if isinstance(seq_, list) and st_ in seq_:
+                    blk_ = seq_[:seq_.index(st_)]
+        helpers_ = {n.name: n for n in vm.cls('EntityFixup').body if isinstance(n, ast.FunctionDef) and n.name.startswith('_') and not n.name.startswith('__')}
+        family = [-1, 0, 1, 2, 3, 4, 6]
+        try:
+            for k_ in range(len(family) + 1):
+                for ids_ in _it.combinations(family, k_):
+                    table = {f'v{i}': Obj(id=i, var=f'v{i}', value='') for i in ids_}
+                    me = MiniEval({'self': Obj(_fixup=table, _matcher=None)}, methods=helpers_)
+                    if scope is fs:
+                        if blk_ is None:
+                            raise Unsupported('index computation block not located')
+                        me.run(blk_)
+                        got = me.env.get(res_var)
+                    else:
+                        got = me.run(scope.body)
+                    want = next(i for i in _it.count(1) if i not in ids_)
+                    # the property needs "positive and not in use"; being the lowest is the repository's choice, not demanded
+                    if (not isinstance(got, int) or got < 1 or got in ids_) and counter is None:
+                        counter = (sorted(ids_), got, want)
+                if counter:
+                    break
+        except (Unsupported, Raised) as exc:
+            ctx.assumptions.append(f'C08.D5 probe of the unrecognised index search gave no verdict: {exc}')
+            counter = None
+    if counter:
+        ctx.check('C08.D5', False, vm, fs, f'EntityFixup.__setitem__: with the indexes {counter[0]} in use the new variable gets index {counter[1]} (interpreted over the syntax tree)'
+                  + (' - the index is already taken, two variables share one replaceNN' if counter[1] in counter[0] else ' - indexes must be positive') + f' (the lowest unused index >= 1 would be {counter[2]})',
+                  text='setitem lowest unused index')
+    else:
+        ctx.shape('C08.D5', recognised, vm, fs, 'EntityFixup.__setitem__ finds the new index with `ind = 1; while ind in {ids in use}: ind += 1` (in place or in a private helper)', text='setitem lowest unused index')
+    if recognised:
+        ctx.check('C08.D5', ok, vm, fs, 'EntityFixup.__setitem__ must pick the lowest index >= 1 that is not among the current indexes and store it in the new FixupValue', text='setitem lowest unused index')
     for name in ('copy_values', '__copy__', '__deepcopy__'):
         fn = vm.func('EntityFixup.' + name)
         bad = [c for c in ast.walk(fn) if isinstance(c, ast.Call) and dotted(c.func) == 'FixupValue' and not (len(c.args) == 3 and isinstance(c.args[2], ast.Attribute) and c.args[2].attr == 'id')]
@@ -339,6 +404,7 @@ def run(ctx: Any, prog: Program) -> None:
 
 
 MUTANTS = [
+    {'id': 'ok_fixup_index_above_max', 'file': 'vmf.py', 'find': "            ind = 1\n            while ind in indexes:\n                ind += 1", 'replace': "            ind = max(max(indexes, default=0), 0) + 1", 'expect': None, 'refuse_ok': True},
     {'id': 'discard_lowers_to_non_positive', 'file': 'vmf.py', 'find': "        if 0 < element < self.search_pos:\n            self.search_pos = element", 'replace': "        if element < self.search_pos:\n            self.search_pos = element", 'expect': 'C08.D1'},
     {'id': 'entity_init_bulk_copies_keys', 'file': 'vmf.py', 'find': "        for k, v in keys.items():\n            self[k] = v\n\n        fixup_list = list(fixup)", 'replace': "        if isinstance(keys, _KeyDict):\n            self._keys.update(keys)\n        else:\n            for k, v in keys.items():\n                self[k] = v\n\n        fixup_list = list(fixup)", 'expect': 'C08.D4'},
     {'id': 'node_id_released_on_remove', 'file': 'vmf.py', 'find': "        # Neither the entity ID nor its node ID are released here.", 'replace': "        if 'nodeid' in item:\n            self.node_id.discard(int(item['nodeid']))\n        # Neither the entity ID nor its node ID are released here.", 'expect': 'C08.D4'},
